@@ -41,7 +41,7 @@ func run(cfg *hx.RunCfg) (*hx.Result, error) {
 			n = 1500
 		}
 	}
-	r := hx.NewRng(cfg.Seed)
+	r := hx.NewRng(hx.NewRng(cfg.Seed).U64()) // the streams of seeds k and k+1 are shifted copies otherwise
 	var jobs []cx.Job
 	for _, p := range cx.CorpusC04() {
 		jobs = append(jobs, cx.Job{P: p, Bucket: "corpus", NoModel: cx.OutsideModel(p)})
@@ -51,7 +51,6 @@ func run(cfg *hx.RunCfg) (*hx.Result, error) {
 		sh := shapes[i%len(shapes)]
 		p := cx.GenDisjoint(r, sh)
 		if len(p.Init) == 0 {
-			p.CtxMs = 4000 // a writer that lost the first-root race blocks in registry.Add for 3 minutes otherwise
 			if len(p.Schedule) > 30 {
 				p.Schedule = p.Schedule[:30] // long lock-step schedules would eat the 4 s themselves
 			}
